@@ -183,8 +183,13 @@ func otherCalls(c Case, w *vkit.W, limit int) {
 	case "date":
 		var d date.Date
 		_ = d.UnmarshalBinary(a)
-		_ = d.Scan(sa)
-		_ = d.Scan(a)
+		// Scan is not documented to read text; if it does, text longer than the limit must not get through
+		for _, src := range []any{sa, a} {
+			keep := d
+			if err := d.Scan(src); err == nil && limit != 0 && len(a) > limit {
+				w.Fail(c, "limit-not-enforced", fmt.Sprintf("date.Scan(%T of %d bytes) with MaxInputLength=%d returned no error (receiver %v -> %v)", src, len(a), limit, keep, d))
+			}
+		}
 		_ = d.Scan(nil)
 		_ = d.Scan(c.Rule)
 		_ = d.Scan(time.Unix(int64(c.Rule), 0))
@@ -591,7 +596,8 @@ func TestCheck(t *testing.T) {
 
 	// Phase B8: every valid text followed or preceded by a token of a neighbouring notation (JSON literals, separators, a second value).
 	r.Phase("B8: every valid text with a JSON literal, separator or second value behind / in front of it x every rule word, default and disabled limits", func() {
-		tokens := []string{" null", "null", " true", " false", " 0", " -1", " []", " {}", " [null]", ` ""`, ` "x"`, " nil", ",", ";", ":", "\n2", "\x00", " \x00", "//", "/**/", "#", " NaN", " 1e999", "\ufeff", " null null"}
+		tokens := []string{" null", "null", " true", " false", " 0", " -1", " []", " {}", " [null]", ` ""`, ` "x"`, " nil", ",", ";", ":", "\n2", "\x00", " \x00", "//", "/**/", "#", " NaN", " 1e999", "\ufeff", " null null",
+			" 14:12:55", "T14:12:55Z", " 14:12:55.123456", "T14:12:55+02:00", " 00:00:00", " 14:12", "T00:00:00.000Z", " 12:00:00 +0000 UTC"} // a time of day behind a date
 		r.Parallel(int64(len(pkgs)), 1, func(w *vkit.W, plo, phi int64) {
 			for _, pkg := range pkgs[plo:phi] {
 				for _, lim := range []int{-1, 0} {
@@ -612,6 +618,38 @@ func TestCheck(t *testing.T) {
 						}
 					}
 					restore()
+				}
+			}
+		})
+	})
+
+	// Phase B9: seven-byte binary date bodies on a year ladder (both signs, out to the int32 limits) x months 0-13 x days 0-32,
+	// plus every version byte: totality of UnmarshalBinary on structured input.
+	r.Phase("B9: binary date bodies: years +-(2^k - 1, 2^k, 2^k + 1) and 400-year neighbours x months 0-13 x days 0-32 x version bytes 0-2", func() {
+		var ys []int64
+		for k := uint(0); k <= 31; k++ {
+			for _, dlt := range []int64{-1, 0, 1} {
+				ys = append(ys, 1<<k+dlt, -(1<<k + dlt))
+			}
+		}
+		ys = append(ys, 0, -1, -399, -400, -401, -1600, -2000, 399, 400, 401)
+		r.Parallel(int64(len(ys)), 8, func(w *vkit.W, lo, hi int64) {
+			for i := lo; i < hi; i++ {
+				u := uint32(int32(ys[i]))
+				for m := 0; m <= 13; m++ {
+					for d := 0; d <= 32; d++ {
+						for ver := 0; ver <= 2; ver++ {
+							body := []byte{byte(ver), byte(u >> 24), byte(u >> 16), byte(u >> 8), byte(u), byte(m), byte(d)}
+							c := Case{Pkg: "date", A: vkit.B(body), Limit: -1}
+							w.Guard(c, func() {
+								var dt date.Date
+								_ = dt.UnmarshalBinary(body)
+								_ = dt.String()
+								_, _ = dt.MarshalBinary()
+							})
+						}
+						w.EvalRandom(vkit.HashU(uint64(u), uint64(m*64+d), 91), true)
+					}
 				}
 			}
 		})
